@@ -399,6 +399,7 @@ func checkC16(c *Ctx) {
 	runEP(u, r, "EP/introspection", ops, fnSet(reach))
 	r.floor("EP/introspection/primitive", 6, "getMetaDataSize x2, ReadMetaData x2 (+constructor), PageHeadersAtOffset Seek x2, PageHeader")
 	laWalk(c, "LA-walk")
+	r.assume("equality of the listing with an independent walk of arbitrary files is value-level and NOT decided")
 }
 
 // laWalk: structure of PageHeadersAtOffset and PageHeaders.
